@@ -193,3 +193,42 @@ def rule_statement_extent(run, prog, rid="R-7.7"):
     run.ob(rid, "registry.py::Registry.run::statement-extent", bad is None,
            (f"`{bad[0]}` followed by `{bad[1]}`: {bad[2]} {bad[3]}: the next statement is consumed as part of this one and never "
             f"examined on its own") if bad else "", None, evaluations=n)
+
+
+def rule_operator_spacing(run, prog, rid="R-2.9"):
+    run.rule(rid, "a blank removed next to an operator is reported whatever follows it: CheckOperatorsSpacing.run, interpreted on "
+             "statements of a function body in which one blank after a comma / assignment / binary operator was removed in front "
+             "of a unary operator, an identifier or a constant, reports a spacing diagnostic (SPC_AFTER_OPERATOR / SPC_BFR_OPERATOR "
+             "/ NO_SPC_AFR_OPR ...); the conforming spellings get none (the family is the set of edits the pinned tree reports: "
+             "`,*p` and `=!y` are accepted by it and are not in the family)", floor=1)
+    pairs = [
+        ("\tf(a, &b);\n", "\tf(a,&b);\n"), ("\tf(a, -1);\n", "\tf(a,-1);\n"), ("\tx = ~y;\n", "\tx =~y;\n"), ("\tx |= ~y;\n", "\tx |=~y;\n"),
+        ("\tz = b & ~c;\n", "\tz = b &~c;\n"), ("\tf(a, b);\n", "\tf(a,b);\n"), ("\tx = a + b;\n", "\tx = a +b;\n"),
+        ("\tx = a + b;\n", "\tx = a+ b;\n"),
+    ]
+    spacing = {"SPC_AFTER_OPERATOR", "SPC_BFR_OPERATOR", "NO_SPC_AFR_OPR", "NO_SPC_BFR_OPR", "SPC_AFTER_POINTER", "SPC_AFTER_PAR", "NO_SPC_BFR_PAR"}
+    bad, n = None, 0
+    try:
+        for good, edited in pairs:
+            res = []
+            for src in (good, edited):
+                n += 1
+                toks = lex(prog, src, first_line=15)
+                name, o = first_match(prog, toks, scope="Function", history=("IsFuncDeclaration", "IsBlockStart", "IsVarDeclaration", "IsEmptyLine"),
+                                      scope_attrs={"indent": 1, "lvl": 1})
+                if name is None or o is None or not o.matched:
+                    res.append(None)
+                    continue
+                o2 = run_statement(prog, toks, name, ["CheckOperatorsSpacing"], scope="Function",
+                                   history=("IsFuncDeclaration", "IsBlockStart", "IsVarDeclaration", "IsEmptyLine"), scope_attrs={"indent": 1, "lvl": 1})
+                res.append(sorted(set(o2.codes) & spacing) if not o2.hang and not o2.raised else None)
+            if res[0] is None or res[1] is None:
+                continue                          # not recognised as a statement in this tree: nothing to compare
+            if res[0] and bad is None:
+                bad = (good.strip(), "conforming spelling", res[0])
+            elif not res[1] and bad is None:
+                bad = (edited.strip(), "blank removed", res[1])
+    except Unsupported as e:
+        raise Undecided(f"CheckOperatorsSpacing / a primary is outside the evaluable subset: {e}")
+    run.ob(rid, "rules/check_operators_spacing.py::CheckOperatorsSpacing.run::removed-blank", bad is None,
+           (f"`{bad[0]}` ({bad[1]}) gets the spacing diagnostics {bad[2]}") if bad else "", None, evaluations=n)
